@@ -401,7 +401,8 @@ def sign_tensor_strategy(cfg):
   def t(draw):
     shape = draw(st.sampled_from([[3, 1], [4, 2], [6, 2], [4, 3], [3, 4], [8, 1],
                                   [2, 2, 2], [2, 3, 2], [3, 1, 3], [2, 2, 1, 2],
-                                  [1, 2, 2, 3], [5, 5]]))
+                                  [1, 2, 2, 3], [5, 5], [2, 3, 1], [2, 5], [7, 1],
+                                  [2, 1, 4], [2, 2, 1, 1], [1, 3, 1, 4]]))
     C = shape[-1]
     R = int(np.prod(shape[:-1]))
     cols = []
